@@ -86,6 +86,9 @@ def post(sim, h):
     V = []
     o = sim.scn["options"]
     for st, step, name in sim.alias_violations[:1]:
+        if st == "seed":
+            V.append(Violation("state-mutated-in-place", f"the run wrote into '{name}' of the Solution it was seeded with: the record of the finished run it continues has been altered", quantity=name, seed=True))
+            continue
         V.append(Violation("state-mutated-in-place", f"update {st}{step} modified the array of '{name}' it was handed (the last accepted state held by the runner) in place", quantity=name))
     # every recorded frame holds an accepted state (bitwise the state returned by that many updates)
     for fr in h.frames:
